@@ -31,9 +31,19 @@ package types
 //@   ensures result.Owner == owner && result.Auditor == auditor
 //@ func NewEventTrustedAuditorDeleted
 //@   ensures result.Owner == owner && result.Auditor == auditor
+//@ lemma attrsAudit(attrs: []sdk.Attribute)
+//@   requires len(attrs) == 4 && attrs[0].Key == "module" && attrs[1].Key == "action" && attrs[2].Key == "owner" && attrs[3].Key == "auditor"
+//@   ensures attrHas(attrs, "module") && attrVal(attrs, "module") == attrs[0].Value && attrHas(attrs, "action") && attrVal(attrs, "action") == attrs[1].Value && attrHas(attrs, "owner") && attrVal(attrs, "owner") == attrs[2].Value && attrHas(attrs, "auditor") && attrVal(attrs, "auditor") == attrs[3].Value
+//@   trigger attrFirst(attrs, "auditor", len(attrs))
+//@   trigger attrFirst(attrs, "module", len(attrs))
+//@   trigger attrFirst(attrs, "owner", len(attrs))
 //@ func (EventTrustedAuditorCreated).ToSDKEvent
+//@   uses attrsAudit
+//@   ensures [shape] len(evAttrs(result)) == 4 && evAttrs(result)[0].Key == "module" && evAttrs(result)[0].Value == "audit" && evAttrs(result)[1].Key == "action" && evAttrs(result)[1].Value == "audit-trusted-auditor-created" && evAttrs(result)[2].Key == "owner" && evAttrs(result)[2].Value == bech32(addrBytes(ev.Owner)) && evAttrs(result)[3].Key == "auditor" && evAttrs(result)[3].Value == bech32(addrBytes(ev.Auditor))
 //@   ensures evType(result) == "akash.v1" && carriesAHead(evAttrs(result), "audit-trusted-auditor-created") && carriesAudit(evAttrs(result), addrBytes(ev.Owner), addrBytes(ev.Auditor))
 //@ func (EventTrustedAuditorDeleted).ToSDKEvent
+//@   uses attrsAudit
+//@   ensures [shape] len(evAttrs(result)) == 4 && evAttrs(result)[0].Key == "module" && evAttrs(result)[0].Value == "audit" && evAttrs(result)[1].Key == "action" && evAttrs(result)[1].Value == "audit-trusted-auditor-deleted" && evAttrs(result)[2].Key == "owner" && evAttrs(result)[2].Value == bech32(addrBytes(ev.Owner)) && evAttrs(result)[3].Key == "auditor" && evAttrs(result)[3].Value == bech32(addrBytes(ev.Auditor))
 //@   ensures evType(result) == "akash.v1" && carriesAHead(evAttrs(result), "audit-trusted-auditor-deleted") && carriesAudit(evAttrs(result), addrBytes(ev.Owner), addrBytes(ev.Auditor))
 //@ func ParseEvent
 //@   ensures [foreign] ev.Type != "akash.v1" || ev.Module != "audit" ==> result1 != nil
@@ -44,5 +54,5 @@ package types
 //@        result1 == nil && typeis(result0, EventTrustedAuditorDeleted)
 //@        && unbox(unbox(result0, EventTrustedAuditorDeleted).Owner, sdk.AccAddress) == o && unbox(unbox(result0, EventTrustedAuditorDeleted).Auditor, sdk.AccAddress) == a
 
-//@ property C16 := TrustedAuditorEVAttributes#*, ParseEVTTrustedAuditor#*, NewEventTrustedAuditorCreated#*, NewEventTrustedAuditorDeleted#*,
+//@ property C16 := lemma:attrsAudit, TrustedAuditorEVAttributes#*, ParseEVTTrustedAuditor#*, NewEventTrustedAuditorCreated#*, NewEventTrustedAuditorDeleted#*,
 //@     (EventTrustedAuditorCreated).ToSDKEvent#*, (EventTrustedAuditorDeleted).ToSDKEvent#*, ParseEvent#*
